@@ -43,32 +43,38 @@ type c15Query struct {
 }
 
 type c15Case struct {
-	Kind      string     `json:"kind"`
-	Config    c15Cfg     `json:"config,omitempty"`
+	Kind      string      `json:"kind"`
+	Config    c15Cfg      `json:"config,omitempty"`
 	PlainList [][2]string `json:"plain,omitempty"` // plain users in insertion order (name, password)
-	File      []c15Enh   `json:"file,omitempty"`
-	Queries   []c15Query `json:"queries,omitempty"`
-	Verdicts  []bool     `json:"verdicts,omitempty"`
-	Refusal   int        `json:"refusal,omitempty"` // chain: how the authenticators word an ACL refusal (see progAuth.refusal)
-	V5        bool       `json:"v5,omitempty"`
+	File      []c15Enh    `json:"file,omitempty"`
+	Queries   []c15Query  `json:"queries,omitempty"`
+	Verdicts  []bool      `json:"verdicts,omitempty"`
+	Refusal   int         `json:"refusal,omitempty"` // chain: how the authenticators word an ACL refusal (see progAuth.refusal)
+	V5        bool        `json:"v5,omitempty"`
 	// kind "alias": publishes of one v5 connection, each with a topic number (0: none, alias only) and an alias
 	// (0: none); topic 9 is forbidden by the write ACL
 	Pubs [][2]int `json:"pubs,omitempty"`
+	// kind "will": a client whose user may not write nw0/ connects with a Will (QoS 1, RETAIN) on nw0/will (Forbidden)
+	// or on free/will, and its connection is cut: a Will is a publish of that user like any other
+	Forbidden bool `json:"forbidden,omitempty"`
+	Delay     int  `json:"delay,omitempty"` // v5: Will Delay Interval in seconds (with a session expiry of 30 s)
 }
 
 type c15Obs struct {
-	LoadErr  string   `json:"loadErr,omitempty"`
-	Password []string `json:"password,omitempty"`
-	ACL      []string `json:"acl,omitempty"`
-	Connack  int      `json:"connack,omitempty"`
-	Routed   []bool   `json:"routed,omitempty"`
-	Retained []bool   `json:"retained,omitempty"`
-	Puback   []int    `json:"puback,omitempty"`
-	Suback   []int    `json:"suback,omitempty"`
-	SubackShared []int `json:"subackShared,omitempty"` // v5: the same filters subscribed as $share/g/<filter>
-	Undisturbed bool  `json:"undisturbed,omitempty"`
-	Alias    []int    `json:"alias,omitempty"` // per publish: 10+topic routed there | 1 denied | 2 connection closed
-	Err      string   `json:"err,omitempty"`
+	WillRouted   bool     `json:"willRouted,omitempty"`
+	WillRetained bool     `json:"willRetained,omitempty"`
+	LoadErr      string   `json:"loadErr,omitempty"`
+	Password     []string `json:"password,omitempty"`
+	ACL          []string `json:"acl,omitempty"`
+	Connack      int      `json:"connack,omitempty"`
+	Routed       []bool   `json:"routed,omitempty"`
+	Retained     []bool   `json:"retained,omitempty"`
+	Puback       []int    `json:"puback,omitempty"`
+	Suback       []int    `json:"suback,omitempty"`
+	SubackShared []int    `json:"subackShared,omitempty"` // v5: the same filters subscribed as $share/g/<filter>
+	Undisturbed  bool     `json:"undisturbed,omitempty"`
+	Alias        []int    `json:"alias,omitempty"` // per publish: 10+topic routed there | 1 denied | 2 connection closed
+	Err          string   `json:"err,omitempty"`
 }
 
 type c15Prop struct {
@@ -115,6 +121,13 @@ var c15Topics = []string{"r/a", "w/a", "x", "q", "xy"}
 func pat(prefix string) string { return "^" + prefix + ".*$" }
 
 func (p *c15Prop) Gen(r *Rng, i int, tier string) interface{} {
+	if i%18 == 5 {
+		c := &c15Case{Kind: "will", V5: r.Bool(), Forbidden: !r.Chance(30)}
+		if c.V5 && r.Chance(40) {
+			c.Delay = 1
+		}
+		return c
+	}
 	if i%9 == 8 {
 		// topic aliases under the write ACL: topic 9 is forbidden; topics with / without alias and alias-only
 		// publishes (also of aliases that were only ever used with the forbidden topic)
@@ -261,6 +274,9 @@ func (p *c15Prop) Run(ci interface{}) interface{} {
 	c := ci.(*c15Case)
 	if c.Kind == "acl" {
 		return p.runACL(c)
+	}
+	if c.Kind == "will" {
+		return p.runWill(c)
 	}
 	if c.Kind == "alias" {
 		return p.runAlias(c)
@@ -562,6 +578,9 @@ func (p *c15Prop) Coq(ci interface{}, oi interface{}) string {
 		}
 		return fmt.Sprintf("(CAlias %s %s %s)", cList(ps), cInts(o.Alias), cBool(o.Err == ""))
 	}
+	if c.Kind == "will" {
+		return fmt.Sprintf("(CWill %s %s %d %s %s %s)", cBool(c.Forbidden), cBool(c.V5), o.Connack, cBool(o.WillRouted), cBool(o.WillRetained), cBool(o.Err == ""))
+	}
 	if c.Kind == "chain" {
 		return fmt.Sprintf("(CChain %s %s %d %s %s %s %s %s %s %s)", bools(c.Verdicts), cBool(c.V5), o.Connack, bools(o.Routed), bools(o.Retained), cInts(o.Puback), cInts(o.Suback), cInts(o.SubackShared), cBool(o.Undisturbed), cBool(o.Err == ""))
 	}
@@ -592,6 +611,9 @@ func (p *c15Prop) Class(ci interface{}, oi interface{}) (string, bool) {
 	if c.Kind == "alias" {
 		return "alias", true
 	}
+	if c.Kind == "will" {
+		return "will", true
+	}
 	if c.Kind == "chain" {
 		return fmt.Sprintf("chain-%d", len(c.Verdicts)), true
 	}
@@ -605,4 +627,67 @@ func (p *c15Prop) Class(ci interface{}, oi interface{}) (string, bool) {
 		return "acl+partial-user-acl", true
 	}
 	return "acl", len(c.Config.EnhUsers)+len(c.File) > 0
+}
+
+func (p *c15Prop) runWill(c *c15Case) interface{} {
+	obs := &c15Obs{}
+	au := &progAuth{
+		password: func(_, _, _ string) bool { return true },
+		acl: func(_, user, topic string, write bool) bool {
+			return !(user == "tested" && write && strings.HasPrefix(topic, "nw0/"))
+		},
+	}
+	b, err := NewBroker(BrokerOpts{Auth: []*progAuth{au}})
+	if err != nil {
+		obs.Err = err.Error()
+		return obs
+	}
+	defer b.Drop()
+	wc := b.Dial()
+	if _, err := wc.Connect(ConnectOpts{ID: "watcher", Ver: mqttp.ProtocolV311, Clean: true, User: "other", Pass: "x"}); err != nil {
+		obs.Err = "watcher: " + err.Error()
+		return obs
+	}
+	w := wc.Auto(false)
+	_ = w.SendL(mkSubscribe(mqttp.ProtocolV311, 1, []string{"#"}, []byte{1}))
+	if !w.WaitFor(5*time.Second, func() bool { return len(w.Others) >= 1 }) {
+		obs.Err = "watcher: no suback"
+		return obs
+	}
+	ver := mqttp.ProtocolV311
+	if c.V5 {
+		ver = mqttp.ProtocolV50
+	}
+	topic := "free/will"
+	if c.Forbidden {
+		topic = "nw0/will"
+	}
+	will := mqttp.NewPublish(ver)
+	_ = will.Set(topic, []byte{0x77}, 1, true, false)
+	o := ConnectOpts{ID: "T", Ver: ver, Clean: true, User: "tested", Pass: "pw", Will: will}
+	if c.Delay > 0 {
+		_ = will.PropertySet(mqttp.PropertyWillDelayInterval, uint32(c.Delay))
+		exp := uint32(30)
+		o.Expiry = &exp
+	}
+	tc := b.Dial()
+	ack, err := tc.Connect(o)
+	if err != nil {
+		obs.Err = "tested: " + err.Error()
+		return obs
+	}
+	obs.Connack = int(ack.ReturnCode())
+	tc.Close()
+	wait := 700*time.Millisecond + time.Duration(c.Delay)*time.Second
+	obs.WillRouted = w.WaitFor(wait, func() bool {
+		for _, m := range w.Pubs {
+			if m.Topic() == topic {
+				return true
+			}
+		}
+		return false
+	})
+	r, _ := b.Topics.Retained(topic)
+	obs.WillRetained = len(r) > 0
+	return obs
 }
